@@ -603,7 +603,6 @@ func init() { register(ruleK1, ruleK2) }
 
 var _ = ruleK3old
 
-
 // authInstallSSA decides, on SSA, that the first middleware installed by the Use call is BasicAuthMiddleware(u, p) under exactly the
 // condition u != "" && p != "". The middleware may be passed directly, or be the first element of a chain slice that a loop
 // installs (`for _, mw := range chain { router.Use(mw) }`), the chain being built by appends in this function or in a helper.
